@@ -73,7 +73,20 @@ def run_sim_history(p, ctx, mode):
     clear_mutable_defaults()
     with numpy_stub(ctx.symbolic), warnings.catch_warnings():
         warnings.simplefilter("ignore")
-        ok1, r1 = ctx.call(M.project.simulate, **dict(kw, max_time=p["k"]))
+        if mode.startswith("after-backward"):
+            # a backward run first ("after-backward": logs not reversed; "after-backward-due": with the due-time helper tasks)
+            ok1, r1 = ctx.call(M.project.backward_simulate, considering_due_time_of_tail_tasks=mode.endswith("due"),
+                               reverse_log_information=bool(p["k"] % 2), **kw)
+        elif mode == "changed-absence":
+            # a first run with other personal absence steps, which are then replaced by the model's own
+            saved = [list(w.absence_time_list) for w in M.workers]
+            for w in M.workers:
+                w.absence_time_list = [p["k"]]
+            ok1, r1 = ctx.call(M.project.simulate, **kw)
+            for w, sv in zip(M.workers, saved):
+                w.absence_time_list = sv
+        else:
+            ok1, r1 = ctx.call(M.project.simulate, **dict(kw, max_time=p["k"]))
         if not ok1:
             ctx.aborted = exc_tag(r1)
             M.obs = Observer(M)
